@@ -294,6 +294,10 @@ def pack(v, t):
                               for i, (it, tt) in enumerate(zip(v.t.items, t.items))])
         if isinstance(t, SeqT) and isinstance(v.t, TupT):
             return pack(MList([SV(it, tup_get(v.t, v.z, i)) for i, it in enumerate(v.t.items)]), t)
+        if v.t == ANY and t == STR:
+            # an opaque value used where text is required: its text content is an unknown function of it
+            from .types import AnySort
+            return z3.Function('unbox[Str]', AnySort, z3.StringSort())(v.z)
         if isinstance(t, ObjT) and isinstance(v.t, ObjT) and (v.t.family, t.family) == ('Type', 'Live'):
             return v.z          # a type object is a live object (both are references)
         raise Unsupported('cannot use %s where %s is expected' % (v.t, t))
